@@ -313,6 +313,9 @@ func (p *Program) modSetOf(fn *ssa.Function, ignoreOwn bool) *ModSet {
 			ms.add(p.DeclaredMods(fc))
 			continue
 		}
+		if fc := p.ContractFor(f); fc != nil && fc.Opts["pure"] != "" && !(ignoreOwn && f == fn) {
+			continue // modelled as an uninterpreted function of its arguments: no frame
+		}
 		for _, b := range f.Blocks {
 			for _, in := range b.Instrs {
 				switch in := in.(type) {
